@@ -340,6 +340,10 @@ def mode_step(kind, mode, lo, hi, cons, oblig, steps=2):
         finally:
             stubs.ORACLE.override = None
         w.lo, w.hi = [R(v) for v in lo], [R(v) for v in hi]
+        # bounds that are not short decimals reach the tight / clip pipeline as 15-digit text, i.e. shifted by up to ~1e-16 relative:
+        # "constraints compatible with the strict ranges" is then assumed with a 1e-9 relative margin on those coordinates
+        exact = [(float('%.15g' % lo[i]) == lo[i] and float('%.15g' % hi[i]) == hi[i]) or lo[i] == hi[i] for i in range(dim)]
+        w.margin = None if all(exact) else [R(0.0 if exact[i] else 1e-9 * (1.0 + max(abs(lo[i]), abs(hi[i])))) for i in range(dim)]
         if cons:
             s.SetConstraints(w.constraint)
         s.SetObjective(w.cost)
